@@ -9,9 +9,10 @@ REAL = ["spydrnet.composers.edif.edifify_names", "spydrnet.composers.edif.compos
         "spydrnet.parsers.edif (re-read)", "namespace manager plugin (EDIF policy on read)"]
 STUB = ["file system (SimFS)", "read chunking", "wall clock", "identity hash of IR objects"]
 
-ALPHA = "abABzZ019_-[]/\\ $&.:()+*#@!~<>=,;'%"
+ALPHA = "abABzZ019_-[]/\\ $&.:()+*#@!~<>=,;'%" + "\u00e9\u00b5"   # (two printable characters outside ASCII as well)
 BASES = ["a", "A", "ab", "AB", "Ab", "data", "DATA", "net", "x_sdn_1_", "a_sdn_1_", "A_sdn_2_", "1", "_", "&a", "a-b",
-         "a b", "a_b", "a.b", "a%b", "50%", "a/b", "a[0]", "a[1]", "A[0]", "\\a ", "$1", "abc", "aBc", "ABC"]
+         "a b", "a_b", "a.b", "a%b", "50%", "a/b", "a[0]", "a[1]", "A[0]", "\\a ", "$1", "abc", "aBc", "ABC",
+         "caf\u00e9", "\u00b5s"]
 
 
 def adversarial(rng):
@@ -251,8 +252,10 @@ class C17(Prop):
                         self.cable_info[e.name] = (2 if e.is_array else len(e.wires), e.get("EDIF.identifier"))
         elif ev["op"] == "parse" and self.scopes is not None:
             if outcome != "ok":
-                raise Violation("C17.reread.rejected", outcome.split(":", 1)[-1],
-                                "the reader rejected the exported file: %s" % outcome)
+                # (what the reader expected is part of the signature, so that minimising keeps the cause)
+                why = " ".join(str(getattr(w, "last_error", "")).split()[:4])
+                raise Violation("C17.reread.rejected", "%s:%s" % (outcome.split(":", 1)[-1], why),
+                                "the reader rejected the exported file: %s (%s)" % (outcome, getattr(w, "last_error", "")))
             n = w.h("e%d.0" % ev["i"])
             import re
             got = list(self.scopes_of(n))
